@@ -583,6 +583,8 @@ bool PedersenVSS::Share
 		mpz_set_ui(rhs, n); // broadcast end marker
 		rbc->Broadcast(rhs);
 		complaints.clear(), complaints_from.clear(); // reset for final complaint resolution
+		if (complaints_counter > 0)
+			complaints_from.push_back(i); // the dealer answers my own complaint too
 		for (size_t j = 0; j < n; j++)
 		{
 			if ((j != i) && (j != dealer))
